@@ -718,6 +718,13 @@ var regexSamples = []regexSample{
 	{`qqqqx{2,3}zzzz`, []string{"qqqqxxzzzz"}, "counted repetition with a positive minimum"},
 	{`qqqqx{0,2}zzzz`, []string{"qqqqzzzz"}, "x{0,n} may repeat zero times: the x is not mandatory"},
 	{`qqqqx?zzzz`, []string{"qqqqzzzz"}, "optional character"},
+	{`qqqq\d\wzzzz`, []string{"qqqq5_zzzz"}, "two class escapes in a row: the second one is an escape too, its letter is not literal text"},
+	{`qqqq\x41zzzz`, []string{"qqqqAzzzz"}, "hexadecimal escape \\xHH: the digits are not literal text"},
+	{`qqqq\101zzzz`, []string{"qqqqAzzzz"}, "octal escape: the digits are not literal text"},
+	{`qqqq\pLzzzz`, []string{"qqqqezzzz"}, "one-letter Unicode class \\pL: the class name is not literal text"},
+	{`qqqqx{0}zzzz`, []string{"qqqqzzzz"}, "x{0} repeats zero times: the x is not there"},
+	{`qqqqx{0,}zzzz`, []string{"qqqqzzzz"}, "x{0,} may repeat zero times"},
+	{`qqqq\\dzzzz`, []string{`qqqq\dzzzz`}, "escaped backslash followed by a letter: literal text"},
 }
 
 // cutScanSplitter recognises the candidate pieces being cut by a scan instead
